@@ -494,6 +494,7 @@ func (h *harness) combinators() {
 			b, _ := json.Marshal(it.c)
 			h.run.Case("comb:"+string(b), it.rich)
 			h.run.Count("comb:root=" + it.c.Term.Op)
+			countOps(it.c.Term)
 			if real != nil && len(real.States) > 0 {
 				h.run.Count("comb:final=" + strings.SplitN(real.States[len(real.States)-1], ":", 2)[0])
 			}
